@@ -548,7 +548,7 @@ class EvalMixin:
                 s = smt.dyn_acc("DList", 0, c.e)
                 if not st.spec and not self.branch(st, z3.And(0 <= i, i < z3.Length(s)), "idx"):
                     raise PyRaise(self.make_exc(st, "IndexError", []))
-                return Z(T("dyn"), s[i])
+                return Z(T("dyn"), smt.seq_nth(s, i))
             if kind == "str":
                 i = self.as_int(st, k)
                 ln = z3.Length(c.e)
